@@ -11,6 +11,14 @@
   library.  Bytes are 1-based in the tables; lists here are 0-based (byte n = index n − 1).
 
   Multi-byte integers are LS byte first.  Signed fields are two's complement.
+
+  RECORD KEY bytes (what makes a record unique in the repository) are reported sub-field by sub-field, as the
+  tables divide them: sensor records (43-1, 43-2, 43-3) owner id, CHANNEL NUMBER [7:4] and owner LUN [1:0] of byte 7,
+  sensor number; FRU device locator (43-7) access address, FRU device id, byte 8 as logical/physical FLAG [7],
+  access LUN [4:3] and private bus id [2:0], channel number [7:4] of byte 9; MC confirmation (43-9) address,
+  device id, channel [7:4] and device revision [3:0] of byte 8.  Where the library had no attribute for a key
+  sub-field the view uses the name the repaired library gives it (`channel_number`, `access_lun`,
+  `private_bus_id`, `device_revision`).
   Core only.
 -/
 namespace PyIpmi.Spec.Sdr
@@ -148,8 +156,8 @@ def flagList (masks : List Nat) (byte : Nat) : List Nat :=
 structure FullSensor where
   recordId : Nat
   version : Nat
-  ownerId : Nat            -- byte 6
-  channel : Nat            -- byte 7 [7:4]
+  ownerId : Nat            -- byte 6   (bytes 6-8 are the RECORD KEY of tables 43-1, 43-2, 43-3)
+  channel : Nat            -- byte 7 [7:4]: channel number of the sensor owner ([3:2] reserved, written as 0)
   ownerLun : Nat           -- byte 7 [1:0]
   number : Nat             -- byte 8
   entityId : Nat           -- byte 9
@@ -237,7 +245,8 @@ def encode (r : FullSensor) : List Nat :=
 
 def view (r : FullSensor) : Fields :=
   headerView r.recordId r.version 0x01 (42 + r.idString.encode.length) ++
-  [("owner_id", .nat r.ownerId), ("owner_lun", .nat r.ownerLun), ("number", .nat r.number),
+  [("owner_id", .nat r.ownerId), ("channel_number", .nat r.channel), ("owner_lun", .nat r.ownerLun),
+   ("number", .nat r.number),
    ("entity_id", .nat r.entityId), ("entity_instance", .nat r.entityInstance),
    ("initialization", .list (flagList [0x40, 0x20, 0x10, 0x08, 0x04, 0x02, 0x01] r.initBits)),
    ("sensor_type_code", .nat r.sensorType), ("event_reading_type_code", .nat r.eventType),
@@ -318,7 +327,8 @@ def encode (r : CompactSensor) : List Nat :=
 
 def view (r : CompactSensor) : Fields :=
   headerView r.recordId r.version 0x02 (26 + r.idString.encode.length) ++
-  [("owner_id", .nat r.ownerId), ("owner_lun", .nat r.ownerLun), ("number", .nat r.number),
+  [("owner_id", .nat r.ownerId), ("channel_number", .nat r.channel), ("owner_lun", .nat r.ownerLun),
+   ("number", .nat r.number),
    ("entity_id", .nat r.entityId), ("entity_instance", .nat r.entityInstance),
    ("sensor_initialization", .nat r.sensorInit), ("capabilities", .nat r.capabilities),
    ("sensor_type_code", .nat r.sensorType), ("event_reading_type_code", .nat r.eventType),
@@ -370,7 +380,8 @@ def encode (r : EventOnly) : List Nat :=
 
 def view (r : EventOnly) : Fields :=
   headerView r.recordId r.version 0x03 (11 + r.idString.encode.length) ++
-  [("owner_id", .nat r.ownerId), ("owner_lun", .nat r.ownerLun), ("number", .nat r.number),
+  [("owner_id", .nat r.ownerId), ("channel_number", .nat r.channel), ("owner_lun", .nat r.ownerLun),
+   ("number", .nat r.number),
    ("entity_id", .nat r.entityId), ("entity_instance", .nat r.entityInstance),
    ("sensor_type", .nat r.sensorType), ("event_reading_type_code", .nat r.eventType),
    ("record_sharing", .nat r.recordSharing),
@@ -385,7 +396,9 @@ structure FruLocator where
   version : Nat
   accessAddress : Nat      -- byte 6 [7:1] (7-bit slave address of the controller; [0] reserved)
   fruDeviceId : Nat        -- byte 7
-  logicalPhysical : Nat    -- byte 8 ([7] logical/physical, [4:3] LUN, [2:0] bus id)
+  logical : Nat            -- byte 8 [7]: 1b = logical FRU device (FRU commands to a management controller), 0b = physical
+  accessLun : Nat          -- byte 8 [4:3]: LUN for the Master Write-Read / FRU command ([6:5] reserved, written as 0)
+  privateBusId : Nat       -- byte 8 [2:0]: private bus id   (bytes 6-9 are the RECORD KEY of table 43-7)
   channelNumber : Nat      -- byte 9 [7:4]: channel number of the management controller used to access the device
   channelLow : Nat         -- byte 9 [3:0]: reserved (not reported; a reader ignores it whatever it holds)
   deviceType : Nat         -- byte 11 (10 reserved, written as 0)
@@ -400,12 +413,13 @@ namespace FruLocator
 
 def wf (r : FruLocator) : Bool :=
   r.recordId < 65536 && r.version < 256 && r.accessAddress < 128 && r.fruDeviceId < 256 &&
-  r.logicalPhysical < 256 && r.channelNumber < 16 && r.channelLow < 16 && r.deviceType < 256 &&
+  r.logical < 2 && r.accessLun < 4 && r.privateBusId < 8 && r.channelNumber < 16 && r.channelLow < 16 && r.deviceType < 256 &&
   r.deviceTypeModifier < 256 && r.entityId < 256 && r.entityInstance < 256 && r.oem < 256 &&
   r.idString.wf
 
 def body (r : FruLocator) : List Nat :=
-  [r.accessAddress * 2, r.fruDeviceId, r.logicalPhysical, r.channelNumber * 16 + r.channelLow, 0,
+  [r.accessAddress * 2, r.fruDeviceId, r.logical * 128 + r.accessLun * 8 + r.privateBusId,
+   r.channelNumber * 16 + r.channelLow, 0,
    r.deviceType, r.deviceTypeModifier, r.entityId, r.entityInstance, r.oem]
 
 def encode (r : FruLocator) : List Nat :=
@@ -414,7 +428,8 @@ def encode (r : FruLocator) : List Nat :=
 def view (r : FruLocator) : Fields :=
   headerView r.recordId r.version 0x11 (10 + r.idString.encode.length) ++
   [("device_access_address", .nat r.accessAddress), ("fru_device_id", .nat r.fruDeviceId),
-   ("logical_physical", .nat r.logicalPhysical), ("channel_number", .nat r.channelNumber),
+   ("logical_physical", .nat r.logical), ("access_lun", .nat r.accessLun),
+   ("private_bus_id", .nat r.privateBusId), ("channel_number", .nat r.channelNumber),
    ("reserved", .nat 0),
    ("device_type", .nat r.deviceType), ("device_type_modifier", .nat r.deviceTypeModifier),
    ("entity_id", .nat r.entityId), ("entity_instance", .nat r.entityInstance),
